@@ -131,6 +131,29 @@ def gen_events_for_gene(rng, world, gi, n):
                 iv = sub_interval(rng, X[0], X[1], margin=rng.choice([1, 1, 2]))
                 if iv:
                     ev = dict(cols=[X[0], X[1], X[0], iv[0], iv[1], X[1]], mode=mode)
+        if rng.random() < 0.18 and len(ex) >= 3 and ty in ('SE', 'A5SS', 'A3SS'):
+            # one or more exons of the transcript lie INSIDE the new junction (interjacent exons), the far end of the
+            # junction matched or falling inside an exon
+            i = rng.randrange(len(ex) - 2)
+            j = rng.randrange(i + 2, len(ex))
+            A, B = ex[i], ex[j]
+            if ty == 'SE':
+                E = ex[rng.randrange(i + 1, j)]
+                U, D = list(A), list(B)
+                k = rng.choice(['both', 'down_inside', 'up_inside'])
+                if k == 'down_inside' and B[1] - B[0] >= 3:
+                    D = [rng.randint(B[0] + 1, B[1] - 2), B[1]]
+                elif k == 'up_inside' and A[1] - A[0] >= 3:
+                    U = [A[0], rng.randint(A[0] + 2, A[1] - 1)]
+                ev = dict(cols=[E[0], E[1], U[0], U[1], D[0], D[1]], mode='interjacent')
+            else:
+                at_end = (ty == 'A5SS') == (g['strand'] == 1)
+                if at_end and A[1] - A[0] >= 3:
+                    x = rng.randint(A[0] + 1, A[1] - 1)
+                    ev = dict(cols=[A[0], A[1], A[0], x, B[0], B[1]], mode='interjacent')
+                elif not at_end and B[1] - B[0] >= 3:
+                    x = rng.randint(B[0] + 1, B[1] - 1)
+                    ev = dict(cols=[B[0], B[1], x, B[1], A[0], A[1]], mode='interjacent')
         if ev is None:
             continue
         ev.update(type=ty, gene=gi)
@@ -424,6 +447,42 @@ def py_alt(g, ex, ev):
                 return ex[:i] + [[a[0], ex[i + 1][1]]] + ex[i + 2:], 'inc'
         return None
 
+def impose_junction(ex, ue, ds):
+    """the transcript with the splice junction ue -> ds imposed: the exon holding ue is cut at ue, the exon holding ds
+    starts at ds, every exon in between is dropped.  None when ue / ds are not exonic in that order."""
+    ex = [list(e) for e in ex]
+    ia = [i for i, e in enumerate(ex) if e[0] < ue <= e[1]]
+    ib = [i for i, e in enumerate(ex) if e[0] <= ds < e[1]]
+    if not ia or not ib or ia[0] >= ib[0] or ue >= ds:
+        return None
+    a, b = ex[ia[0]], ex[ib[0]]
+    alt = ex[:ia[0]] + [[a[0], ue], [ds, b[1]]] + ex[ib[0] + 1:]
+    return None if alt == ex else alt
+
+def event_junctions(g, ev):
+    """(upstream end, downstream start, form whose read count supports it) of every junction the event tests"""
+    c = ev['cols']
+    ty = ev['type']
+    if ty == 'SE':
+        return [(c[3], c[4], 'skip'), (c[3], c[0], 'inc'), (c[1], c[4], 'inc')]
+    if ty in ('A5SS', 'A3SS'):
+        at_end = (ty == 'A5SS') == (g['strand'] == 1)
+        return [(c[1], c[4], 'inc'), (c[3], c[4], 'skip')] if at_end else [(c[5], c[0], 'inc'), (c[5], c[2], 'skip')]
+    if ty == 'MXE':
+        return [(c[1], c[6], 'inc'), (c[5], c[2], 'skip')]
+    return []
+
+def py_alt_ext(g, ex, ev):
+    """extended scope for <DEL> records: the transcript does not carry the event's exons next to each other (exons of
+    the transcript lie inside the new junction, or the far end of the junction falls inside an exon), but a junction of
+    the event can be imposed on it.  Candidates: one alternative per imposable junction."""
+    out = []
+    for ue, ds, form in event_junctions(g, ev):
+        alt = impose_junction(ex, ue, ds)
+        if alt is not None:
+            out.append((alt, form))
+    return out
+
 def form_junctions(g, ev, form):
     """junctions (exon end, next exon start) of the form a record creates, and the junction(s) whose novelty alone
     makes the form certainly unannotated AND makes the code consider the event (MUST side of the converse)"""
@@ -471,6 +530,8 @@ def form_surely_novel(g, ev, form):
 def support_ok(ev, form, min_ijc, min_sjc):
     return ev['ijc'] >= min_ijc if form == 'inc' else ev['sjc'] >= min_sjc
 
+EXT_COUNT = [0]      # records judged in the extended (junction-imposition) scope, for the evidence file
+
 def declarative(case, ev, lines, thresholds=True):
     """evaluate the three clauses of the statement on the lines emitted for one event:
        reproduces-the-isoform, novelty (the created form is not annotated), read support >= the form's threshold.
@@ -481,6 +542,7 @@ def declarative(case, ev, lines, thresholds=True):
     ins = outs = 0
     fails = []
     served = set()
+    ext = EXT_COUNT
     for line in lines:
         rec = parse_line(line)
         tx = tmap.get(rec['tid'])
@@ -488,7 +550,20 @@ def declarative(case, ev, lines, thresholds=True):
             fails.append(('record for a transcript that is not in the gene', line)); continue
         alt = py_alt(g, tx['exons'], ev)
         if alt is None:
-            outs += 1
+            # extended scope: a deletion must impose one of the event's junctions on the transcript
+            cands = py_alt_ext(g, tx['exons'], ev) if rec['alt'] == '<DEL>' else []
+            if not cands:
+                outs += 1
+                continue
+            got = py_apply(w, g, tx, rec)
+            hit = [(a, f) for a, f in cands if G.tx_seq(w, g, {'exons': a}) == got]
+            ext[0] += 1
+            if not hit:
+                fails.append(('the deletion reproduces none of the isoforms obtained by imposing a junction of the event on the '
+                              'transcript: got %s, candidates %s (exons %s)' % (got, [a for a, _ in cands], tx['exons']), line))
+            elif thresholds and not any(support_ok(ev, f, case['min_ijc'], case['min_sjc']) for _, f in hit):
+                fails.append(('deletion imposing the %s junction although its read support (IJC %d, SJC %d) is below the threshold '
+                              '(min_ijc %d, min_sjc %d)' % (hit[0][1], ev['ijc'], ev['sjc'], case['min_ijc'], case['min_sjc']), line))
             continue
         alt, form = alt
         ins += 1
@@ -681,6 +756,14 @@ def analyse(ctx, results, stats):
         mc = model_cli(case, rep)
         ac = canon_impl(im['cli'])
         stats['cli_cases'] += 1
+        if 'cli_argv' in im:
+            stats['argv_runs'] = stats.get('argv_runs', 0) + 1
+            av = canon_impl(im['cli_argv'])
+            if av != ac:
+                violations.append({'what': 'C16 parseRMATS through the real argument parser (%s) gives %s, the entry function called with '
+                                           'the same options gives %s' % ('--index-dir' if case.get('argv_index') else 'reference files',
+                                                                           str(av)[:200], str(ac)[:200]),
+                                   'replay_obj': {'kind': 'case', 'case': case}, 'no_input': False})
         cli_fail = cli_declarative(case, im, ac, stats) if isinstance(ac, list) else None
         if cli_fail:
             what, evs = cli_fail
@@ -744,6 +827,17 @@ def cli_declarative(case, im, cli_lines, stats):
                 tids, form, ev['type'], ev['cols'], ev['ijc'], ev['sjc']), [ev])
     return None
 
+def mark_argv(cases, every=12, with_index=2):
+    """a small stream through the REAL argument parser (harness/impl/_argv_route.py): every option of the command on the
+    command line; the first few also through generateIndex + --index-dir"""
+    k = 0
+    for i, c in enumerate(cases):
+        if i % every == 0:
+            c['argv'] = True
+            if k < with_index:
+                c['argv_index'] = True
+            k += 1
+
 def new_stats():
     return dict(events=0, dist={}, in_scope_records=0, out_scope_records=0, kinds={}, errors={}, nontrivial=set(),
                 harmless=[], cli_cases=0, cli_diff=[], obliged_missing=0, unfiltered_records=0, cli_lines_checked=0,
@@ -760,6 +854,7 @@ def run(ctx):
         if obj.get('kind') == 'case':
             corpus.append((os.path.basename(f), obj))
     cases = [gen_case(rng) for _ in range(n)]
+    mark_argv(cases)
     stats = new_stats()
     violations = []
     # corpus first
@@ -799,8 +894,8 @@ def run(ctx):
                      'record for an in-scope transcript whose reconstruction was compared with the ground-truth isoform; '
                      'distinct by (gene structure, event, counts, thresholds)',
                 samples=samples, distribution=stats['dist'], record_kinds=stats['kinds'], error_classes=stats['errors'],
-                in_scope_records=stats['in_scope_records'], out_of_scope_records=stats['out_scope_records'],
-                cli_runs=stats['cli_cases'], cli_lines_checked=stats['cli_lines_checked'], unfiltered_records=stats['unfiltered_records'], disagreements=len(stats['harmless']) + len(stats['cli_diff']),
+                in_scope_records=stats['in_scope_records'], extended_scope_deletions=EXT_COUNT[0], out_of_scope_records=stats['out_scope_records'],
+                cli_runs=stats['cli_cases'], argv_route_runs=stats.get('argv_runs', 0), cli_lines_checked=stats['cli_lines_checked'], unfiltered_records=stats['unfiltered_records'], disagreements=len(stats['harmless']) + len(stats['cli_diff']),
                 violations=[v for v in violations if not v.get('finding')][:12] + [v for v in violations if v.get('finding')][:4],
                 assumptions=['rMATS coordinates are 0-based half-open genomic, upstream/downstream by genomic coordinate on both strands (rMATS convention)',
                              'gene strand is +1 or -1; transcript line spans first exon start .. last exon end',
